@@ -4,13 +4,16 @@
 EXTENDS Annotation, LabelGeom, AnnGeom, Json
 
 ASSUME WellFormed(InitElems)
+ASSUME \A b \in FreshBlocks : WholeBlock(b) /\ \A r \in RegionsIn(b) : InitSV[r] = 0
 
-AKey == [sv |-> sv, mp |-> mp, nxt |-> nxt, all |-> ElemSeq(elems)]
+AKey == [sv |-> sv, mp |-> mp, nxt |-> nxt, all |-> ElemSeq(elems), fresh |-> SetToSeq(fresh)]
 \* one line per transition (exhaustive emission)
-ANextEmit == ANext /\ PrintT(ToJson([s |-> AKey, l |-> last', t |-> AKey']))
+\* (every class from the initial state, the classes DeepClasses from the states below it)
+ANextEmit == (\E c \in (IF depth = 0 THEN Classes ELSE DeepClasses) : ANextC(c))
+             /\ PrintT(ToJson([s |-> AKey, l |-> last', t |-> AKey']))
 ASpecEmit == AInit /\ [][ANextEmit]_allvars
 \* one line per state: the expected observation; in simulation (one worker) the lines of a
 \* behaviour follow each other, d = 0 starting a new behaviour
 AEmitObs == PrintT(ToJson([k |-> AKey, d |-> depth, l |-> last, obs |-> AObs]))
-AView == <<sv, mp, nxt, elems, tagIdx, labelIdx, cnt>>
+AView == <<sv, mp, nxt, elems, tagIdx, labelIdx, cnt, fresh>>
 =============================================================================
